@@ -28,6 +28,16 @@ def run_case(c):
                 ref = getattr(s, meth)()
                 return {"list": [s.degree(k, d) for k in range(1, len(ref))], "ref": ref}
             R.append(call("degrees", dict(i, dir=d), f, lambda o: {"list": names(o["list"]), "ref": names(o["ref"])}))
+        # one scale object asked in both directions, in both orders (the object may not remember its first answer for the other)
+        for first, second in (("a", "d"), ("d", "a")):
+            def g():
+                s = mk(cls, t, n)
+                m1 = {"a": "ascending", "d": "descending"}
+                r1 = getattr(s, m1[first])()
+                [s.degree(k, first) for k in range(1, len(r1))]
+                ref = getattr(s, m1[second])()
+                return {"list": [s.degree(k, second) for k in range(1, len(ref))], "ref": ref}
+            R.append(call("degrees", dict(i, dir=second, after=first), g, lambda o: {"list": names(o["list"]), "ref": names(o["ref"])}))
     elif kd == "eq":
         a, b = c["a"], c["b"]
         def f():
